@@ -188,6 +188,15 @@ def tolerances(L, omega, S1, S2, x1, x2, starts, w, order, Q):
     # detrending adds cancellation: scale by the raw (undetrended) windowed magnitude
     raw1 = max(float(np.abs(x1[int(s):int(s) + L] * w).sum()) for s in starts) + 1e-300
     raw2 = max(float(np.abs(x2[int(s):int(s) + L] * w).sum()) for s in starts) + 1e-300
+    if order >= 0:
+        # the DETRENDED samples d_n = x_n - trend_n are what enters the recurrence: sum|w d| <= sum|w x| + max|x| sum|w| (order 0: |mean| <= max|x|;
+        # orders 1, 2: further scaled by the basis factor below).  Without the second term the budget collapses to 0 when the window vanishes exactly
+        # where the record does not (quantised record x = [-0, 3, -0, 0], window zero at index 1: sum|w x| = 0 but the mean-removed segment is not 0) and
+        # 1-ulp differences alarm on the unchanged library — a latent false alarm found by the wave-8 strengthening agent (never hit by ./check seeds).
+        # The tight per-segment budget `seg_tight_tol` is enforced in addition, so this correction does not weaken what a run demands.
+        sw = float(np.abs(w).sum())
+        raw1 += max(float(np.abs(x1[int(s):int(s) + L]).max()) if L > 0 else 0.0 for s in starts) * sw
+        raw2 += max(float(np.abs(x2[int(s):int(s) + L]).max()) if L > 0 else 0.0 for s in starts) * sw
     if order >= 1:
         amp = float(np.abs(Q).sum(axis=0).max()) * float(np.abs(Q).max()) * (Q.shape[1])
         raw1 *= (1 + amp)
